@@ -100,11 +100,18 @@ fn check_case(ctx: &mut Ctx, c: &Case) {
     }
 
     let q = match c {
-        Case::Subset { .. } | Case::Runs { .. } => Queries::exhaustive(&m),
-        Case::Explicit { .. } | Case::Empty { .. } | Case::Full { .. } => {
+        Case::Subset { .. } => Queries::exhaustive(&m),
+        Case::Runs { .. } if m.len <= 5000 => Queries::exhaustive(&m),
+        Case::Runs { .. } | Case::Explicit { .. } | Case::Empty { .. } | Case::Full { .. } => {
             let bucket = width.map(|w| 1u128 << w).unwrap_or(0);
             let small = m.len <= 5000;
-            let mut q = if small { Queries::exhaustive(&m) } else { Queries::edges(&m, &[bucket], &[16], 24, m.len <= 100_000) };
+            let mut q = if small { Queries::exhaustive(&m) } else { Queries::edges(&m, &[bucket], &[16, 4096], if m.ones() > 10_000 { 200 } else { 24 }, m.len <= 100_000) };
+            if !small && m.ones() > 10_000 && m.ones() <= 1_000_000 {
+                // every rank for select (cheap), so that every superblock of the bucket bitvector is used
+                q.ranks = (0..=m.ones() as usize + 1).chain(boundary_args(m.ones() as usize)).collect();
+                q.ranks.sort_unstable();
+                q.ranks.dedup();
+            }
             if !small && m.zeros() > 1_000_000 {
                 // zero-side full iteration is linear in the universe
                 q.full_iters = false;
@@ -251,6 +258,23 @@ fn explore(ctx: &mut Ctx) {
             }
         }
     });
+
+    // (c2) large clustered sets: solid runs with huge holes make the select structures of the internal
+    // bucket bitvector use their explicit-offset ("long") superblocks, which small sets never reach.
+    let big: Vec<(Vec<(usize, usize)>, usize)> = vec![
+        (vec![(0, 30000), (29_000_000, 35536)], 900_000),
+        (vec![(1000, 5000), (14_000_000, 60536)], 15_000_000),
+        (vec![(7, 4097), (50_000_000, 4095), (50_000_000, 60000)], 3),
+        (vec![(300_000, 524_288)], 40_000_000),
+        (vec![(0, 100_000), (1, 100_000), (60_000_000, 1)], 0),
+    ];
+    for (letters, tail) in big {
+        let c = Case::Runs { letters, tail };
+        if ctx.mine(&c) {
+            ctx.count("large_clustered_cases", 1);
+            check_case(ctx, &c);
+        }
+    }
 
     // (d) empty and full vectors ("bounded by memory only")
     let mut empties: Vec<usize> = vec![0, 1, 2, 63, 64, 65, 4095, 4096, 4097, 1 << 16, 1 << 20];
